@@ -39,6 +39,25 @@ func killChildren() {
 	}
 }
 
+// runsOf run-length encodes captured output as [letter number, count] pairs (any byte that is not a
+// lower-case letter is reported as 255+byte).
+func runsOf(s string) []any {
+	out := []any{}
+	for i := 0; i < len(s); {
+		j := i
+		for j < len(s) && s[j] == s[i] {
+			j++
+		}
+		tag := 255 + int(s[i])
+		if s[i] >= 'a' && s[i] <= 'z' {
+			tag = int(s[i] - 'a')
+		}
+		out = append(out, []any{tag, j - i})
+		i = j
+	}
+	return out
+}
+
 func numOf(v any) int {
 	switch x := v.(type) {
 	case json.Number:
@@ -55,13 +74,14 @@ func numOf(v any) int {
 func init() {
 	regOp(&Op{Name: "runcmd", Impl: func(a map[string]any) any {
 		var sb strings.Builder
-		for _, wv := range a["writes"].([]any) {
+		for k, wv := range a["writes"].([]any) {
 			w := wv.(map[string]any)
 			fd := "1"
 			if str(w["s"]) == "err" {
 				fd = "2"
 			}
-			fmt.Fprintf(&sb, "head -c %d /dev/zero >&%s; ", numOf(w["n"]), fd)
+			// chunk k consists of copies of the letter number k (mod 26): the captured CONTENT is compared
+			fmt.Fprintf(&sb, "head -c %d /dev/zero | tr '\\000' '%c' >&%s; ", numOf(w["n"]), 'a'+byte(k%26), fd)
 		}
 		switch str(a["end"]) {
 		case "exit":
@@ -86,6 +106,7 @@ func init() {
 				return map[string]any{"completed": true, "error": true}
 			}
 			return map[string]any{"completed": true, "stdout": len(r.m["stdout"].(string)), "stderr": len(r.m["stderr"].(string)),
+				"stdout_runs": runsOf(r.m["stdout"].(string)), "stderr_runs": runsOf(r.m["stderr"].(string)),
 				"complete_in_model": true, "exit": int(r.m["return-value"].(float64))}
 		case <-time.After(deadline):
 			killChildren()
@@ -112,7 +133,7 @@ func runC14(r *Runner, tier string, rng *Rng) {
 	// the witness of the repaired defect first: more than a pipe buffer to stderr before stdout closes
 	batch = append(batch, Case{Op: "runcmd", Args: map[string]any{"writes": []any{map[string]any{"s": "err", "n": 200000}, map[string]any{"s": "out", "n": 5}}, "end": "exit", "code": 0, "cap": capB, "dir": ""}, Feat: "witness"})
 	for i := 0; i < n; i++ {
-		nw := 1 + rng.Intn(4)
+		nw := 1 + rng.Intn(5)
 		var ws []any
 		feat := ""
 		for k := 0; k < nw; k++ {
@@ -145,5 +166,5 @@ func runC14(r *Runner, tier string, rng *Rng) {
 		}
 	}
 	flush()
-	r.St.Rule = "real commands (sh -c with head -c N /dev/zero >&fd) writing volumes from {0, 1, cap-1, cap, cap+1, 4*cap (thorough: 200000, 4 MiB), random} to stdout and stderr in 1-4 chunks in any order, ending with exit status 0..255 or SIGKILL, in two working directories, each under a 20 s deadline; compared: completion, captured byte counts of both streams, return value. Class = (chunk pattern in units of the pipe capacity, ending)."
+	r.St.Rule = "real commands (sh -c with head -c N /dev/zero >&fd) writing volumes from {0, 1, cap-1, cap, cap+1, 4*cap (thorough: 200000, 4 MiB), random} to stdout and stderr in 1-4 chunks in any order, ending with exit status 0..255 or SIGKILL, in two working directories, each under a 20 s deadline; every chunk written in its own letter; compared: completion, captured byte counts AND run-length encoded content of both streams, return value. Class = (chunk pattern in units of the pipe capacity, ending)."
 }
